@@ -2,7 +2,7 @@
 //! `0..m_len()` plus pull-style adapters; terminal operations call `drive`, which asks the
 //! scheduler for a split tree and a leaf order, runs the leaves one after another in that order and
 //! combines the per-leaf results along the tree — as rayon's consumers / reducers do.
-use crate::model::{end_region, plan, Tree};
+use crate::model::{end_region, plan, set_running_worker, Tree};
 use std::cell::RefCell;
 use std::collections::{BTreeMap, BTreeSet, HashMap, HashSet, LinkedList, VecDeque};
 use std::hash::{BuildHasher, Hash};
@@ -23,6 +23,7 @@ fn drive<P: ParallelIterator, R>(p: &P, leaf: &mut dyn FnMut(&P, usize, usize) -
     let mut results: Vec<Option<R>> = (0..plan.leaves.len()).map(|_| None).collect();
     for &li in &plan.order {
         let (lo, hi) = plan.leaves[li];
+        set_running_worker(plan.workers[li]);
         results[li] = Some(leaf(p, lo, hi));
     }
     fn eval<R>(t: &Tree, results: &mut Vec<Option<R>>, combine: &mut dyn FnMut(R, R) -> R) -> R {
